@@ -6,6 +6,7 @@ fns, opaque external types with assume_specification) and whose executable funct
     //@extract <src path> <Type::fn | fn>
     //@ret <name>                     name the return value:  -> T   becomes   -> (name: T)
     //@spec <verus clause text>       requires/ensures/decreases lines, emitted between signature and body
+    //@attr <attribute>               a Verus attribute line placed above the signature (e.g. opting out of termination)
     //@loop <k> <clause text>         invariant/decreases lines for the k-th loop (source order, from 0)
     //@subst <old>=><new>             literal replacement in signature+body (each counted, each listed in evidence)
     //@subst_re <regex>=><new>        same with a (DOTALL) regular expression, for multi-line `assert!(.., "fmt", ..)`
@@ -120,7 +121,7 @@ def generate(unit, repo):
             continue
         if s.startswith("//@extract "):
             _, src, spec = s.split()
-            ret, specs, loops, substs, befores = None, [], {}, [], []
+            ret, specs, loops, substs, befores, attrs = None, [], {}, [], [], []
             i += 1
             while not lines[i].strip().startswith("//@end"):
                 d = lines[i].strip()
@@ -128,6 +129,8 @@ def generate(unit, repo):
                     ret = d.split(None, 1)[1].strip()
                 elif d.startswith("//@spec"):
                     specs.append(d[len("//@spec"):].rstrip())
+                elif d.startswith("//@attr "):
+                    attrs.append(d[len("//@attr "):].strip())
                 elif d.startswith("//@loop "):
                     _, k, rest = d.split(None, 2)
                     loops.setdefault(int(k), []).append(rest)
@@ -198,6 +201,7 @@ def generate(unit, repo):
             for k, v in counts.items():
                 info["rules"][k] = info["rules"].get(k, 0) + v
             first = len(out) + 1
+            out.extend(attrs)
             out.append(sig)
             out.extend(specs)
             out.extend(body.split("\n"))
